@@ -422,7 +422,8 @@ type treeParams struct {
 	//   racing with the root's shutdown: 0 nothing, 1 a leaf stops itself (poisons its own pid from a message),
 	//   2 a leaf panics once on a message, 3 a third party poisons a leaf, 5 a leaf panics on every delivery of a message (exceeds max restarts)
 	//   before the root's shutdown (quiescence in between): 4 Children() queried while a leaf stops itself, then again afterwards,
-	//   6 a leaf panics once and is restarted, 7 the root panics once and is restarted
+	//   6 a leaf panics once and is restarted, 7 the root panics once and is restarted,
+	//   8 the root has one more child that dies during its own start (Started panics, MaxRestarts 0); Children() is queried
 	Extra int
 }
 
@@ -465,6 +466,14 @@ func engTree(variants []treeParams) vsched.Instance {
 					pids[name] = c.PID()
 					if pp := c.Parent(); pp != nil {
 						parentSeen[name] = pidStr(pp)
+					}
+					if depth == 0 && inc == 1 && p.Extra == 8 {
+						// a child that dies during its own start: Started panics and it may not be restarted
+						c.SpawnChild(k.Producer("dead", func(k *Kit, c *actor.Context, inc int) {
+							if _, ok := c.Message().(actor.Started); ok {
+								panic("dies during start")
+							}
+						}), "n", actor.WithID("dead"), actor.WithMaxRestarts(0))
 					}
 					if depth < p.Depth && inc == 1 { // children survive a restart of their parent: spawn them once
 						for i := 0; i < p.Fan; i++ {
@@ -534,6 +543,9 @@ func engTree(variants []treeParams) vsched.Instance {
 			vsched.Quiesce()
 			stoppedSelf = ln0
 			k.E.Send(parent, "query")
+			vsched.Quiesce()
+		case 8:
+			k.E.Send(rootPID, "query")
 			vsched.Quiesce()
 		case 6:
 			k.E.Send(leaf, "crash1")
@@ -644,6 +656,10 @@ func engTree(variants []treeParams) vsched.Instance {
 				vs = append(vs, V("children/nil-entry", "%s: Children() of %s contained %d nil entries (%v)", p, o.who, o.nils, o.names))
 			}
 			for _, n := range o.names {
+				if strings.HasSuffix(n, "/n/dead") {
+					vs = append(vs, V("children/dead-child-listed", "%s: Children() of %s lists %s, a child that died during its own start (Started panicked, MaxRestarts 0) and is not registered", p, o.who, n))
+					continue
+				}
 				found := false
 				for cn := range parentOf {
 					if parentOf[cn] == o.who && pids[cn] != nil && pids[cn].ID == n {
